@@ -631,6 +631,72 @@ func c03foreignFor(r *vf.Rand, orig byte, bech32 bool) byte {
 	}
 }
 
+// --- stream: addresses with at most five letters in the payload, letters
+// upper-cased while the prefix stays lower case: a substitution of weight <= 5
+// (by characters of the other case) that leaves every symbol VALUE unchanged.
+
+func c03fewLettersCase(c *vf.Ctx, i int) {
+	const digits = "023456789"
+	net := allNets[i%len(allNets)]
+	prefix := net.P.CashAddressPrefix
+	if i%2 == 1 && net.P.SlpAddressPrefix != "" {
+		prefix = net.P.SlpAddressPrefix
+	}
+	isLetter := func(ch byte) bool { return ch >= 'a' && ch <= 'z' }
+	for try := 0; try < 400; try++ {
+		// payload symbols: the version symbol, then digits only
+		sym := make([]byte, 34)
+		for j := 1; j < 34; j++ {
+			sym[j] = byte(strings.IndexByte(ref.CashCharset, digits[c.R.Intn(len(digits))]))
+		}
+		sym[33] &^= 3 // zero padding bits (168 bits in 34 symbols)
+		body := ref.CashEncodeSymbols(prefix, sym)
+		var letters []int
+		for j := 0; j < len(body); j++ {
+			if isLetter(body[j]) {
+				letters = append(letters, j)
+			}
+		}
+		if len(letters) == 0 || len(letters) > 5 {
+			continue
+		}
+		valid := prefix + ":" + body
+		var err error
+		c.Call("DecodeCashAddress", func() string { return valid }, func() { _, _, err = bchutil.DecodeCashAddress(valid) })
+		if err != nil {
+			c.Inconclusive("few-letter-codeword-rejected")
+			return
+		}
+		c.Inc("few_letter_addresses")
+		c.Nontrivial(vf.HashString(valid))
+		for mask := 1; mask < 1<<len(letters); mask++ {
+			b := []byte(body)
+			w := 0
+			for k, p := range letters {
+				if mask>>k&1 == 1 {
+					b[p] -= 32
+					w++
+				}
+			}
+			s := prefix + ":" + string(b)
+			c.Evals(2)
+			c.Call("DecodeCashAddress", func() string { return s }, func() { _, _, err = bchutil.DecodeCashAddress(s) })
+			if err == nil {
+				c.Failf("DecodeCashAddress/undetected-substitution", "weight-%d substitution (letters replaced by their upper-case form) accepted: valid %q -> %q", w, valid, s)
+			}
+			c.Call("DecodeAddress", func() string { return s }, func() { _, err = bchutil.DecodeAddress(s, net.P) })
+			if err == nil {
+				c.Failf("DecodeAddress/undetected-substitution", "weight-%d substitution (letters replaced by their upper-case form) accepted on %s: valid %q -> %q", w, net.Name, valid, s)
+			}
+		}
+		if c.WantSample() {
+			c.Sample(map[string]any{"few_letter_address": valid, "letters": len(letters)})
+		}
+		return
+	}
+	c.Inconclusive("no-few-letter-address-found")
+}
+
 // --- stream: near misses (patterns whose syndrome vanishes on a mask)
 
 func c03nearCase(c *vf.Ctx, i int) {
@@ -690,10 +756,12 @@ func c03nearCase(c *vf.Ctx, i int) {
 // ---------------------------------------------------------------- bech32
 
 type c03b32 struct {
-	T     [90][32]uint32
-	dupes [][2][]int
-	n     int
-	near  [][2][]int // pairs (positions, values) agreeing on low 25 / dropped groups
+	T         [90][32]uint32
+	dupes     [][2][]int
+	n         int
+	cosets    int
+	cosetPats [][2][]int
+	near      [][2][]int // pairs (positions, values) agreeing on low 25 / dropped groups
 }
 
 func b32syn(hrp string, data []byte, pos []int, val []byte) uint32 {
@@ -784,6 +852,43 @@ func c03b32init(t vf.Tier, seed uint64) any {
 			}
 		}
 	}
+	// cosets: patterns of weight <= 4 whose syndrome equals the difference
+	// between the bech32 constant and another plausible final constant
+	// (BIP350's bech32m 0x2bc830a3, 0): what a decoder that also accepts that
+	// constant would let through
+	sort.Slice(list, func(i, j int) bool { return list[i].s < list[j].s })
+	for _, t := range []uint32{1 ^ 0x2bc830a3, 1 ^ 0} {
+		found := 0
+		for i := 0; i < len(list) && found < 24; i += 1 + len(list)/200000 {
+			a := list[i]
+			want := a.s ^ t
+			k := sort.Search(len(list), func(x int) bool { return list[x].s >= want })
+			if k >= len(list) || list[k].s != want {
+				continue
+			}
+			b := list[k]
+			pm := map[int]byte{}
+			for _, pr := range [][2]int8{{a.d1, a.e1}, {a.d2, a.e2}, {b.d1, b.e1}, {b.d2, b.e2}} {
+				if pr[0] >= 0 && pr[1] != 0 {
+					pm[int(pr[0])] ^= byte(pr[1])
+				}
+			}
+			var pos, val []int
+			for d, e := range pm {
+				if e != 0 {
+					pos = append(pos, d)
+					val = append(val, int(e))
+				}
+			}
+			if len(pos) == 0 {
+				continue
+			}
+			sh.near = append(sh.near, [2][]int{pos, val})
+			sh.cosetPats = append(sh.cosetPats, [2][]int{pos, val})
+			sh.cosets++
+			found++
+		}
+	}
 	// near misses: agree on the low 25 bits / on all but one 5-bit group
 	masks := []uint32{0x1ffffff, 0x3fffffe0, 0x3ffffc1f, 0x3fff83ff, 0x3ff07fff, 0x3e0fffff, 0x01ffffff}
 	for _, m := range masks {
@@ -826,6 +931,31 @@ func c03b32mapCase(c *vf.Ctx, i int) {
 	if i == 0 {
 		c.Count("bech32_weight_le2_patterns_enumerated", int64(sh.n))
 		c.Evals(int64(sh.n))
+		c.Count("bech32_coset_patterns_for_other_constants", int64(len(sh.cosetPats)))
+		for _, d := range sh.cosetPats {
+			maxd := 0
+			for _, x := range d[0] {
+				if x > maxd {
+					maxd = x
+				}
+			}
+			L := maxd + 1
+			if L < 8 {
+				L = 8
+			}
+			hrp, sym := b32codeword(c.R, 1, L-6)
+			orig := b32string(hrp, sym)
+			for k, x := range d[0] {
+				sym[L-1-x] ^= byte(d[1][k])
+			}
+			s := b32string(hrp, sym)
+			var err error
+			c.Evals(1)
+			c.Call("bech32.Decode", func() string { return s }, func() { _, _, err = bech32.Decode(s) })
+			if err == nil {
+				c.Failf("bech32.Decode/undetected-substitution", "weight-%d substitution accepted (its syndrome equals the difference to another checksum constant such as bech32m's): valid %q -> corrupted %q", len(d[0]), orig, s)
+			}
+		}
 		for _, d := range sh.dupes {
 			// zero-syndrome pattern of weight <= 4 on the measured map: ask the real decoder
 			c.Inc("bech32_zero_syndrome_candidates")
@@ -1050,6 +1180,7 @@ func init() {
 			{Name: "cashaddr-mitm-w5", N: func(t vf.Tier) int { return c03maxL - 2 }, Run: c03mitmCase, Init: c03initMitm, Exhaustive: true, MaxCaseSec: 600},
 			{Name: "cashaddr-blackbox-w1-w2", N: func(t vf.Tier) int { return c03bbOffsets[len(c03bbOffsets)-1] }, Run: c03bbCase, Exhaustive: true},
 			{Name: "cashaddr-blackbox-seeded", N: func(t vf.Tier) int { return t.Sz(40000, 2000000) }, Run: c03randCase},
+			{Name: "cashaddr-few-letters-case", N: func(t vf.Tier) int { return t.Sz(600, 6000) }, Run: c03fewLettersCase},
 			{Name: "cashaddr-near-miss", N: func(t vf.Tier) int { return t.Sz(264, 264*4) }, Run: c03nearCase, Init: c03initNear},
 			{Name: "bech32-syndrome-map", N: func(t vf.Tier) int { return t.Sz(200, 2000) }, Run: c03b32mapCase, Init: c03b32init, Exhaustive: false},
 			{Name: "bech32-blackbox-w1-w2", N: func(t vf.Tier) int {
